@@ -230,6 +230,9 @@ func cmdRac(args []string) {
 			continue
 		}
 		n++
+		if d := os.Getenv("APDVC_RAC_KEEP"); d != "" {
+			os.WriteFile(filepath.Join(d, sanitize(name)+"_rac_test.go"), []byte(src), 0o644)
+		}
 		go func(name, src string) {
 			sem <- true
 			secs, trials := "8", "20000"
